@@ -229,6 +229,8 @@ func c16Matrix(c *engine.Ctx) {
 		{"bases[b1,b2]", drv.Config{Kind: drv.Mem, HostBases: []string{"b1.test", "b2.example"}}, []string{"b1.test", "b2.example"}},
 		{"bases[b1:port]", drv.Config{Kind: drv.Mem, HostBases: []string{"b1.test:9000"}}, []string{"b1.test:9000"}},
 		{"bases[.b1.]", drv.Config{Kind: drv.Mem, HostBases: []string{".b1.test."}}, []string{"b1.test"}},
+		{"bases[test,b1.test]", drv.Config{Kind: drv.Mem, HostBases: []string{"test", "b1.test"}}, []string{"test", "b1.test"}},
+		{"bases[b1.test,test]", drv.Config{Kind: drv.Mem, HostBases: []string{"b1.test", "test"}}, []string{"b1.test", "test"}},
 		{"bases[b1]+host-bucket", drv.Config{Kind: drv.Mem, HostBucket: true, HostBases: []string{"b1.test"}}, []string{"b1.test"}},
 	}
 	hosts := []string{"aaa.b1.test", "aaa.b2.example", "aaa.b1.test:9000", "b1.test", "x.aaa.b1.test", "unrelated.org", ".b1.test", "aaa.b1.test.", "AAA.b1.test", "aaa", "bbb.b1.test", "aaa.xb1.test"}
